@@ -40,7 +40,7 @@ Inductive rpc :=
 | RTop                                    (* inside a poll, top of `loop` *)
 | REnabled (f : fut)                      (* notified created and enabled; next: take() *)
 | RAfterTake (f : fut)                    (* slot was empty; next: load sender_dropped *)
-| RRetake (f : fut)                       (* sender_dropped was true; next: take() again *)
+| RRetaking (f : fut)                       (* sender_dropped was true; next: take() again *)
 | RReturning (f : fut) (v : option (list upd))  (* `return v`; next: drop of `notified` *)
 | RAwait (f : fut)                        (* next: poll `notified` *)
 | RParked                                 (* poll returned Pending at `notified.await` *)
@@ -185,12 +185,12 @@ Definition step (s : state) (lb : label) : option state :=
       end
   | RCheckDropped =>
       match r_pc s with
-      | RAfterTake f => Some (set_r s (if sender_dropped s then RRetake f else RAwait f))
+      | RAfterTake f => Some (set_r s (if sender_dropped s then RRetaking f else RAwait f))
       | _ => None
       end
   | RRetake =>
       match r_pc s with
-      | RRetake f => Some (mkState None (permit s) (wtr s) (sender_dropped s) (receiver_dropped s) (s_pc s)
+      | RRetaking f => Some (mkState None (permit s) (wtr s) (sender_dropped s) (receiver_dropped s) (s_pc s)
                                    (RReturning f (slot s)) (merged s) (delivered s) (send_results s)
                                    (wakes s) (woken s))
       | _ => None
@@ -283,7 +283,7 @@ Definition next_label (p : rpc) : option label :=
   | RTop => Some RStart
   | REnabled _ => Some RTake
   | RAfterTake _ => Some RCheckDropped
-  | RRetake _ => Some RRetake
+  | RRetaking _ => Some RRetake
   | RReturning _ _ => Some RDropFut
   | RAwait _ => Some RPollNotified
   | RIdle | RParked | RGone => None
@@ -362,5 +362,11 @@ Fixpoint runs_from (expect : N) (runs : list (N * N)) : option N :=
   | [] => Some expect
   | (a, len) :: r => if (a =? expect) then runs_from (expect + len) r else None
   end.
+Fixpoint batches_from (expect : N) (batches : list (list (N * N))) : option N :=
+  match batches with
+  | [] => Some expect
+  | b :: r => match runs_from expect b with Some e => batches_from e r | None => None end
+  end.
+Definition expand_batches (batches : list (list (N * N))) : list N := concat (map expand batches).
 Definition stress_ok (n : N) (batches : list (list (N * N))) : bool :=
-  match runs_from 0 (concat batches) with Some e => e =? n | None => false end.
+  match batches_from 0 batches with Some e => e =? n | None => false end.
